@@ -20,6 +20,7 @@ Python never judges: unclassifiable observations become "UNCLASSIFIED..."
 tokens that no clause of ClassModel.tla accepts.
 """
 import copy
+import random
 
 import pywbem
 import pywbem_mock
@@ -326,12 +327,21 @@ FLAG = {"T": True, "F": False, "N": None}
 # ----------------------------------------------------------------------------
 
 class Driver:
-    def __init__(self, rng, conn=None):
-        self.rng = rng
+    """`rng` chooses query batteries; the lexical case of every name in the
+    i-th call is derived from (case_seed, i) only, so that replaying the
+    recorded abstract calls reproduces the very same concrete calls."""
+    def __init__(self, rng, conn=None, case_seed=None):
+        self.brng = rng
+        self.case_seed = case_seed if case_seed is not None else \
+            rng.randrange(1 << 30)
+        self.rng = random.Random(self.case_seed)
         self.conn = conn or fresh()
         self.events = []
         self.calls = []          # readable concrete calls (for replays)
         self.acalls = []         # abstract calls (replayable)
+
+    def _begin(self):
+        self.rng = random.Random(self.case_seed * 1000003 + len(self.acalls))
 
     def _log(self, acall, text, ev):
         self.acalls.append(acall)
@@ -341,6 +351,7 @@ class Driver:
 
     # -- mutating calls ------------------------------------------------------
     def create(self, cid, sup, d, via="api", op="Create"):
+        self._begin()
         ac = {"op": op, "via": via, "name": cid, "super": sup, "d": d}
         ev = dict(ac)
         if via == "mof":
@@ -367,6 +378,7 @@ class Driver:
         return self.create(cid, sup, d, via=via, op="Modify")
 
     def create_inst(self, cid, key):
+        self._begin()
         ac = {"op": "CreateInst", "name": cid, "key": key}
         ev = dict(ac)
         inst = CIMInstance(cname(self.rng, cid),
@@ -401,6 +413,7 @@ class Driver:
         return [cid_of(c.classname) for c in store.iter_values()]
 
     def delete(self, cid):
+        self._begin()
         ac = {"op": "Delete", "name": cid}
         ev = dict(ac)
         n = cname(self.rng, cid)
@@ -420,6 +433,7 @@ class Driver:
 
     # -- queries ---------------------------------------------------------------
     def get(self, cid, lo="F", iq="T", ico="T", hp=False, pl=()):
+        self._begin()
         ac = {"op": "Get", "name": cid, "lo": lo, "iq": iq, "ico": ico,
               "hp": bool(hp), "pl": list(pl)}
         ev = dict(ac)
@@ -440,6 +454,7 @@ class Driver:
         return self._log(ac, text, ev)
 
     def enum_names(self, cid, deep):
+        self._begin()
         ac = {"op": "EnumClassNames", "name": cid, "deep": bool(deep)}
         ev = dict(ac)
         n = cname(self.rng, cid) if cid else None
@@ -453,6 +468,7 @@ class Driver:
                          "DeepInheritance=%r)" % (n, deep), ev)
 
     def enum_classes(self, cid, deep, lo="F", iq="T", ico="T"):
+        self._begin()
         ac = {"op": "EnumClasses", "name": cid, "deep": bool(deep),
               "lo": lo, "iq": iq, "ico": ico}
         ev = dict(ac)
@@ -472,6 +488,7 @@ class Driver:
                          (n, deep, FLAG[lo], FLAG[iq], FLAG[ico]), ev)
 
     def enum_inst(self, cid, names_only=False):
+        self._begin()
         op = "EnumInstNames" if names_only else "EnumInst"
         ac = {"op": op, "name": cid}
         ev = dict(ac)
@@ -535,7 +552,7 @@ class Driver:
             return
         plists = [(False, ()), (True, ()), (True, ("p",)), (True, ("p", "q"))]
         chosen = [] if level < 1 else cls if level >= 2 else \
-            self.rng.sample(cls, min(2, len(cls)))
+            self.brng.sample(cls, min(2, len(cls)))
         for c in cls:
             self.get(c)
         for c in chosen:
@@ -548,17 +565,17 @@ class Driver:
                             self.get(c, lo, iq, ico, hp, pl)
             # flags not supplied / other property lists
             for _ in range(3):
-                self.get(c, self.rng.choice("TFN"), self.rng.choice("TFN"),
-                         self.rng.choice("TFN"), self.rng.random() < 0.5,
-                         self.rng.choice([("k",), ("q", "k"), ("p", "p"),
+                self.get(c, self.brng.choice("TFN"), self.brng.choice("TFN"),
+                         self.brng.choice("TFN"), self.brng.random() < 0.5,
+                         self.brng.choice([("k",), ("q", "k"), ("p", "p"),
                                           ("q",)]))
         combos = [("F", "T", "T"), ("T", "T", "T"), ("F", "F", "F"),
                   ("T", "F", "T"), ("N", "N", "N"), ("F", "T", "F")]
         for c in [""] + cls:
             for deep in (False, True):
                 self.enum_names(c, deep)
-                lo, iq, ico = combos[0] if self.rng.random() < 0.4 else \
-                    self.rng.choice(combos)
+                lo, iq, ico = combos[0] if self.brng.random() < 0.4 else \
+                    self.brng.choice(combos)
                 self.enum_classes(c, deep, lo, iq, ico)
         for c in cls:
             self.enum_inst(c, False)
